@@ -432,7 +432,8 @@ Proof. intros I Hn. apply create_on_ext; [apply create_remote_ext|exact I|exact 
 (* ---- every operation *)
 Definition gateway_of (o : op) : N :=
   match o with
-  | Create gw _ _ _ | Rename gw _ _ | Delete gw _ | DeleteByName gw _ | Restart gw | Bump gw _ _ => gw
+  | Create gw _ _ _ | Rename gw _ _ | Delete gw _ | DeleteByName gw _ | Restart gw | Bump gw _ _
+  | CreatePair gw _ _ | FaultedCreate _ gw _ | FaultedRename _ gw _ _ => gw
   end.
 (* operations are issued through a node of the cluster *)
 Definition op_wf (s : st) (o : op) : Prop := is_Some (s_eng s !! gateway_of o).
@@ -471,10 +472,23 @@ Proof.
   - intros n0 k H. left. exact H.
 Qed.
 
+(* a state that keeps rows and engines of s and takes the (grown) counters of an extension of s *)
+Lemma ext_counters_only s s' b : ext s s' -> ext s (St (s_tab s) (s_eng s) (s_ctr s') (s_free s') b).
+Proof.
+  intros E.
+  assert (Hc : forall l, ctr_of (St (s_tab s) (s_eng s) (s_ctr s') (s_free s') b) l = ctr_of s' l) by reflexivity.
+  constructor.
+  - intros l. rewrite Hc. apply (ext_ctr _ _ E).
+  - intros H l. rewrite Hc. apply (ext_max _ _ E H).
+  - intros n. cbn. tauto.
+  - intros k c H. left. eauto.
+  - intros n k H. left. exact H.
+Qed.
+
 Theorem step_ext validate s o s' r :
   Inv s -> op_wf s o -> step true validate s o = (s', r) -> ext s s'.
 Proof.
-  intros I Hwf. destruct o as [gw chs retr over|gw keys names|gw keys|gw names|n|n free delta];
+  intros I Hwf. destruct o as [gw chs retr over|gw keys names|gw keys|gw names|n|n free delta|gw a b|n gw chs|n gw keys names];
     unfold op_wf in Hwf; cbn [gateway_of] in Hwf; cbn [step].
   - apply create_ext; assumption.
   - apply rename_keys_ext; assumption.
@@ -488,6 +502,25 @@ Proof.
       apply ctr_add_spec in Ec as [-> Hmax]. apply ext_bump_free; lia.
     + destruct (ctr_add _ delta) as [v|] eqn:Ec; intros [= <- <-]; [|apply ext_refl].
       apply ctr_add_spec in Ec as [-> Hmax]. apply ext_bump_leased; [lia|assumption|assumption].
+  - destruct (create true validate gw s a (COpts false false)) as [s1 [e1 o1]] eqn:E1.
+    pose proof (create_ext _ _ _ _ _ _ _ I Hwf E1) as X1.
+    destruct (negb (is_ok e1)); [intros [= <- <-]; eapply ext_trans; [exact X1|apply ext_upd_amb]|].
+    destruct (create true validate gw s1 b (COpts false false)) as [s2 [e2 o2]] eqn:E2.
+    assert (X2 : ext s1 s2).
+    { eapply create_ext; [eapply Inv_ext; eassumption|apply (ext_nodes _ _ X1), Hwf|exact E2]. }
+    destruct (negb (is_ok e2)); intros [= <- <-].
+    + eapply ext_trans; [exact X1|]. eapply ext_trans; [exact X2|apply ext_upd_amb].
+    + eapply ext_trans; eassumption.
+  - destruct (create true validate gw s chs (COpts false false)) as [s1 [e1 o1]] eqn:E1.
+    pose proof (create_ext _ _ _ _ _ _ _ I Hwf E1) as X1.
+    destruct (is_ok e1 && all_leased_to n gw chs && is_node s n); intros [= <- <-].
+    + apply ext_counters_only, X1.
+    + eapply ext_trans; [exact X1|apply ext_upd_amb].
+  - destruct (rename_keys true validate gw s keys names) as [s1 [e1 o1]] eqn:E1.
+    pose proof (rename_keys_ext _ _ _ _ _ _ _ _ Hwf E1) as X1.
+    destruct (is_ok e1 && _); intros [= <- <-].
+    + apply ext_upd_amb.
+    + eapply ext_trans; [exact X1|apply ext_upd_amb].
 Qed.
 
 Theorem step_Inv validate s o : Inv s -> op_wf s o -> Inv (step true validate s o).1.
